@@ -177,8 +177,13 @@ func sweepPass(prog *Program, cs *Contracts, prop string) []*FuncResult {
 				continue
 			}
 		}
-		if fc != nil && inlineOnly(fc) {
+		if fc != nil && fc.Inline {
 			passInst(inv, prog, n, "sweep", "inlined-into-callers", []string{"C09"}, "verified in the context of each caller", true, fn.Pos())
+			continue
+		}
+		if fc == nil && fn.Parent() != nil && len(loopsOfFn(fn)) == 0 && len(fn.Blocks) <= 12 {
+			// small closure without a contract: the executor inlines it where it is called or deferred
+			passInst(inv, prog, n, "sweep", "inlined-into-parent", []string{"C09"}, "closure verified in the context of its parent", true, fn.Pos())
 			continue
 		}
 		fr := VerifyFunction(prog, cs, fn, true, []string{"C09"})
